@@ -268,8 +268,11 @@ func c10pkScript(r *vf.Rand, p *c10pool) ([]byte, string) {
 		if r.Chance(1, 3) {
 			n = 16
 		}
-		m := r.Range(1, n)
+		m := r.Range(0, n)
 		s := []byte{txscript.OP_1 - 1 + byte(m)}
+		if m == 0 {
+			s[0] = txscript.OP_0 // 0-of-n: the required-signatures number is itself an empty push
+		}
 		nonMinimal := r.Intn(3) // 0: all minimal, 1: one key, 2: random
 		odd := r.Intn(n)
 		own := r.Intn(n)
@@ -310,6 +313,9 @@ func c10pkScript(r *vf.Rand, p *c10pool) ([]byte, string) {
 	case 9, 10, 11: // bare multisig m-of-n
 		n := r.Range(1, 3)
 		m := r.Range(1, n)
+		if r.Chance(1, 6) {
+			m = 0 // 0-of-n: OP_0, an empty push, in front of the keys
+		}
 		b := txscript.NewScriptBuilder().AddInt64(int64(m))
 		for i := 0; i < n; i++ {
 			b.AddData(p.key(r))
@@ -1204,6 +1210,19 @@ func c10blockCase(c *vf.Ctx, i int) {
 			in := func() string { return describe(o) }
 			if !c.Call("NewBlock", in, func() { blk = bchutil.NewBlock(mb) }) {
 				return
+			}
+			if (oi+ai+i)%3 == 0 {
+				// the caller has used the block before and re-annotated some of its
+				// cached transaction wrappers (Tx.SetIndex is public); reported
+				// indices are block positions all the same
+				c.Call("Block.Transactions/SetIndex", in, func() {
+					ts := blk.Transactions()
+					pr := vf.NewRand(vf.Mix(hsh, uint64(oi), uint64(ai)))
+					for k := 1 + pr.Intn(3); k > 0 && len(ts) > 0; k-- {
+						ts[pr.Intn(len(ts))].SetIndex([]int{bchutil.TxIndexUnknown, 0, pr.Intn(len(ts)), len(ts), 1 << 20}[pr.Intn(5)])
+					}
+				})
+				c.Inc("scans_of_blocks_whose_tx_wrappers_were_re-annotated")
 			}
 			rec := &c10rec{}
 			c10recorders.Store(f, rec)
